@@ -119,6 +119,34 @@ func sysLabel(c string, j Job) string {
 }
 
 func init() {
+	generic := func(j Job) (s Sys) {
+		defer func() {
+			if recover() != nil {
+				s = nil
+			}
+		}()
+		return makeSys(j.s("c", ""), j)
+	}
+	for _, k := range []string{"iter", "snap", "c15", "json11", "json12", "pure", "race", "enum"} {
+		sysForJob[k] = generic
+	}
+	sysForJob["kv"] = func(j Job) Sys { return kvSysFromJob(j) }
+	sysForJob["list"] = func(j Job) Sys {
+		if j.p("deep", 0) == 1 {
+			return makeSys(j.s("c", ""), j)
+		}
+		return intListSys(j.s("c", ""), j.p("n", 6), j.p("u", 3))
+	}
+	sysForJob["set"] = func(j Job) Sys { return intSetSys(j.s("c", ""), j.s("cmp", "nat"), j.p("u", 4)) }
+	sysForJob["seq"] = generic
+	sysForJob["heap"] = func(j Job) Sys {
+		s := heSysIDs(j.s("c", ""), j.s("cmp", "min"), j.p("n", 5), j.p("pmax", 3), j.p("jsonlen", 3), j.p("ids", 2))
+		s.Skew = j.p("skew", 0)
+		if s.Skew == 0 && j.p("ids", 2) == 2 {
+			s.JSONTexts = []string{`[null]`, `[null,{"P":1,"ID":1}]`, `[{"P":1},null,{"ID":1}]`, `[{"ID":1},{"P":2}]`}
+		}
+		return s
+	}
 	// the two documented constructor preconditions are asserted to BE panics (C17 excludes them)
 	jobKinds["ctorpanic"] = func(j Job, r *JobResult) {
 		panics := func(f func()) (p bool) {
